@@ -194,6 +194,9 @@ FEATURES = {
                "class KC:\n    v: make(size=7) = ft.partial(make, size=8)\n    def m(self, q=make(size=6)) -> make(size=9): ...\n"),
     # objects local to __init__ (the visitor walks that body: they become members of the function)
     "init-locals": "class IL:\n    def __init__(self, a):\n        import warnings\n        from os import path as osp_local\n        def callback(item: int = 0) -> int: ...\n        class Local:\n            lv = 1\n        self.count = a\n",
+    # dotted names of three and four parts (every part after the first resolves through the one before it)
+    "dotted-chain": ("import os.path\nclass Thing:\n    class Inner:\n        class Deep:\n            dv = 1\n"
+                     "chv: Thing.Inner.Deep = Thing.Inner.Deep.dv\ndef fch(p: Thing.Inner.Deep = Thing.Inner.Deep) -> Thing.Inner: ...\nchw = os.path.join\nclass Sub(Thing.Inner.Deep):\n    pass\n"),
     "inherit": "import abc\nclass A(abc.ABC):\n    @abc.abstractmethod\n    def am(self): ...\n    x = 1\nclass B(A):\n    y = 2\n",
 }
 EXECUTABLE = list(FEATURES)
